@@ -16,7 +16,7 @@ while read -r name kind checks; do
   if ! git -C "$WT" apply "$ROOT/mutants/$name.diff"; then echo "STALE $name (patch no longer applies)" | tee -a "$LOG"; bad=$((bad+1)); git -C /repo worktree remove --force "$WT"; continue; fi
   fired=""; alarms=""
   for p in $checks; do
-    out=$(VERIF_REPO="$WT" "$ROOT/check" "$p" quick 2>&1); rc=$?
+    out=$(VERIF_REPO="$WT" VERIF_OUT="$(dirname "$WT")/out" "$ROOT/check" "$p" quick 2>&1); rc=$?
     if [ $rc -eq 1 ]; then fired="$fired $p"; alarms="$alarms
 $(echo "$out" | grep -a -A2 '^VIOLATION' | head -6 | cut -c1-300)"; [ "$kind" = fires ] && break; fi
     if [ $rc -ne 0 ] && [ $rc -ne 1 ]; then alarms="$alarms
